@@ -4,7 +4,7 @@ plus (thorough tier) a free-running stress run whose monitors are the failing-in
 import os, subprocess, time, random, json
 
 ROOT = os.path.dirname(os.path.dirname(os.path.abspath(__file__)))
-TARGET = os.path.join(ROOT, "build", "alt", "target") if os.environ.get("VERIF_REPO") else os.path.join(ROOT, "build", "target")
+TARGET = os.path.join(ROOT, "build", os.environ.get("VERIF_ALT", "alt"), "target") if os.environ.get("VERIF_REPO") else os.path.join(ROOT, "build", "target")
 CREPLAY = os.path.join(ROOT, "build", "bin", "creplay")
 
 def hx(b):
